@@ -77,4 +77,27 @@ theorem speedCol_opt (sqrt : α → α) (ofNat : Nat → α) (isNaN : α → Boo
   unfold speedF speedAt
   simp only [betweenF_opt]
 
+section field
+variable {β : Type} [Field β] [LinearOrder β]
+
+/-- in exact arithmetic the legs accumulated by `computeCurvAbsBetweenTwoPoints` (`P[i+1] - P[i]`) are those of `absc`
+(`P[i] - P[i+1]`) -/
+theorem curvF_absc (sqrt : β → β) (ofNat : Nat → β) (isNaN : β → Bool) (xy : List (β × β)) :
+    ∀ k, k < xy.length → curvF (optG sqrt ofNat isNaN) (xsOf xy) (ysOf xy) k = some (absc sqrt xy k)
+  | 0, _ => rfl
+  | k + 1, h => by
+    have hk : k < xy.length := by omega
+    have h0 : xy[k]? = some xy[k] := List.getElem?_eq_getElem hk
+    have h1 : xy[k + 1]? = some xy[k + 1] := List.getElem?_eq_getElem h
+    unfold curvF
+    rw [curvF_absc sqrt ofNat isNaN xy k hk]
+    simp only [xsOf, ysOf, List.getElem?_map, h0, h1, Option.map_some, absc]
+    show some (absc sqrt xy k + sqrt ((xy[k + 1].1 - xy[k].1) * (xy[k + 1].1 - xy[k].1) + (xy[k + 1].2 - xy[k].2) * (xy[k + 1].2 - xy[k].2)))
+      = some (absc sqrt xy k + sqrt ((xy[k].1 - xy[k + 1].1) * (xy[k].1 - xy[k + 1].1) + (xy[k].2 - xy[k + 1].2) * (xy[k].2 - xy[k + 1].2)))
+    congr 3
+    ring
+
+
+end field
+
 end TV.CinTab
